@@ -33,7 +33,7 @@ def run_demo(wt, n):
     rc, out = sh("g++ -std=c++14 -w -DCTRMML_VERIF -I src -I OUT/%s OUT/%s/demo.cpp _b/libctrmml.a -o OUT/%s/demo_bin 2>&1 | tail -5" % (n, n, n), wt)
     if not os.path.exists(os.path.join(d, "demo_bin")):
         return -99, "demo does not compile: " + out
-    rc, out = sh("OUT/%s/demo_bin" % n, wt, timeout=300)
+    rc, out = sh("OUT/%s/demo_bin %s" % (n, os.environ.get("DEMO_ARGS", "")), wt, timeout=300)
     os.unlink(os.path.join(d, "demo_bin"))
     return rc, out[-600:]
 
